@@ -28,6 +28,40 @@ Lemma skeleton_slices : forall z,
   = (z, z, z, z, z, z, z, z, z).
 Proof. reflexivity. Qed.
 
+(* the calls: lcs := LCSFunc(<lhs or rhs>, <the other one>, eq) -- the model follows the order of
+   the first two (EditModel.pick_arg), the third is eq; EditScript(lhs, rhs) is
+   editScriptFunc(equal, lhs, rhs) with equal(a, b) = (a == b); every append extends out; the two
+   returns are nil (inside the elision test) and out *)
+Lemma skeleton_calls :
+  ((es_lcs_arg0 0 1 2, es_lcs_arg1 0 1 2) = (0, 1) \/ (es_lcs_arg0 0 1 2, es_lcs_arg1 0 1 2) = (1, 0)) /\
+  es_lcs_arg2 0 1 2 = 2 /\
+  (es_pub_arg0 0 1 2, es_pub_arg1 0 1 2, es_pub_arg2 0 1 2) = (0, 1, 2) /\
+  (forall o, (es_append0_dst o, es_append1_dst o, es_append2_dst o, es_append3_dst o,
+              es_append4_dst o, es_append5_dst o, es_append6_dst o) = (o, o, o, o, o, o, o)) /\
+  (forall n o, (es_ret_elided n, es_ret_out o) = (n, o)).
+Proof. repeat split; try reflexivity. left; reflexivity. Qed.
+
+Lemma es_equal_decides : forall a b, es_equal a b = true <-> a = b.
+Proof. intros a b. unfold es_equal. apply Z.eqb_eq. Qed.
+
+(* the seven Edit[T]{...} literals: the Op constant of each, and which field is set to which
+   slice expression (X always a slice of lhs, Y of rhs; the other field of a Drop / Copy / Emit
+   is not set) *)
+Lemma skeleton_lits :
+  (op_of_code es_fuse_op, op_of_code es_drop_op, op_of_code es_copy_op, op_of_code es_emit_op,
+   op_of_code es_tail_fuse_op, op_of_code es_tail_drop_op, op_of_code es_tail_copy_op)
+  = (Some Replace, Some Drop, Some Copy, Some Emit, Some Replace, Some Drop, Some Copy) /\
+  (forall z, (es_fuse_lit_x z, es_fuse_lit_y z, es_drop_lit_x z, es_drop_lit_y z,
+              es_copy_lit_x z, es_copy_lit_y z, es_emit_lit_x z, es_emit_lit_y z)
+             = (z, z, z, z, z, z, z, z)) /\
+  (forall z, (es_tail_fuse_lit_x z, es_tail_fuse_lit_y z, es_tail_drop_lit_x z, es_tail_drop_lit_y z,
+              es_tail_copy_lit_x z, es_tail_copy_lit_y z) = (z, z, z, z, z, z)).
+Proof. repeat split; reflexivity. Qed.
+
+(* op_of_code inverts op_code: the four constants are distinct *)
+Lemma op_of_code_code : forall o, op_of_code (op_code o) = Some o.
+Proof. intros []; reflexivity. Qed.
+
 (* ---- indices and slices on lists split at the position ------------------------------- *)
 
 Lemma zlen_app : forall {A} (p s : list A), zlen (p ++ s) = zlen p + zlen s.
@@ -73,6 +107,14 @@ Proof.
   rewrite firstn_app, firstn_all, Nat.sub_diag. cbn [firstn]. now rewrite app_nil_r.
 Qed.
 
+(* the same with spare capacity behind the slice: nothing of [extra] is reached *)
+Lemma zslice_cap_mid : forall {A} (p x s extra : list A) lo hi,
+    lo = zlen p -> hi = zlen p + zlen x -> zslice_cap (p ++ x ++ s) extra lo hi = Some x.
+Proof.
+  intros A p x s extra lo hi Hlo Hhi. unfold zslice_cap.
+  rewrite <- !app_assoc. now apply zslice_mid.
+Qed.
+
 (* rewrite the visible closed comparisons of machine ints to true / false *)
 Ltac zb :=
   repeat match goal with |- context [?a >? ?b] => rewrite (Z.gtb_ltb a b) end;
@@ -88,6 +130,9 @@ Section EditProofs.
   Hypothesis eqb_refl : forall x, eqb x x = true.
   Hypothesis eqb_sym : forall x y, eqb x y = true -> eqb y x = true.
   Hypothesis eqb_trans : forall x y z, eqb x y = true -> eqb y z = true -> eqb x z = true.
+
+  (* what the spare capacity of the two inputs holds: arbitrary *)
+  Variables lx rx : list T.
 
   Local Notation edit := (EditLoop.edit T).
   Local Notation SubB := (SubseqB eqb).
@@ -229,53 +274,59 @@ Section EditProofs.
   Proof. intros. rewrite zlen_cons. pose proof (zlen_nonneg s). lia. Qed.
 
   Lemma gap_edits_spec : forall lp d1 ls1 rp d2 rs1 out,
-      gap_edits T (lp ++ d1 ++ ls1) (rp ++ d2 ++ rs1)
+      gap_edits T lx rx (lp ++ d1 ++ ls1) (rp ++ d2 ++ rs1)
                 (zlen lp) (zlen lp + zlen d1) (zlen rp) (zlen rp + zlen d2) out
       = EOk (out ++ gap_list d1 d2).
   Proof.
     intros lp d1 ls1 rp d2 rs1 out. unfold gap_edits.
+    assert (Lf : forall x y, lit T es_fuse_op x y = EOk (mkEdit Replace x y)) by reflexivity.
+    assert (Ld : forall x y, lit T es_drop_op x y = EOk (mkEdit Drop x y)) by reflexivity.
+    assert (Lc : forall x y, lit T es_copy_op x y = EOk (mkEdit Copy x y)) by reflexivity.
     unfold es_fuse_cond, es_drop_cond, es_copy_cond, es_fuse_rpos,
       es_fuse_x_lo, es_fuse_x_hi, es_fuse_y_lo, es_fuse_y_hi,
       es_drop_x_lo, es_drop_x_hi, es_copy_y_lo, es_copy_y_hi.
-    assert (HL : zslice (lp ++ d1 ++ ls1) (zlen lp) (zlen lp + zlen d1) = Some d1)
-      by (now apply zslice_mid).
-    assert (HR : zslice (rp ++ d2 ++ rs1) (zlen rp) (zlen rp + zlen d2) = Some d2)
-      by (now apply zslice_mid).
+    assert (HL : zslice_cap (lp ++ d1 ++ ls1) lx (zlen lp) (zlen lp + zlen d1) = Some d1)
+      by (now apply zslice_cap_mid).
+    assert (HR : zslice_cap (rp ++ d2 ++ rs1) rx (zlen rp) (zlen rp + zlen d2) = Some d2)
+      by (now apply zslice_cap_mid).
     destruct d1 as [|a1 d1], d2 as [|a2 d2];
       try pose proof (zlen_pos a1 d1); try pose proof (zlen_pos a2 d2);
       rewrite ?zlen_nil, ?Z.add_0_r in *.
     - zb. cbn [andb ebind]. zb. cbn [gap_list]. now rewrite app_nil_r.
-    - zb. cbn [andb ebind]. zb. rewrite HR. reflexivity.
-    - zb. cbn [andb]. rewrite HL. cbn [of_opt ebind]. zb. reflexivity.
-    - zb. cbn [andb]. rewrite HL, HR. cbn [of_opt ebind]. zb. reflexivity.
+    - zb. cbn [andb ebind]. zb. rewrite HR. cbn [of_opt ebind]. now rewrite Lc.
+    - zb. cbn [andb]. rewrite HL. cbn [of_opt ebind]. rewrite Ld. cbn [ebind]. zb. reflexivity.
+    - zb. cbn [andb]. rewrite HL, HR. cbn [of_opt ebind]. rewrite Lf. cbn [ebind]. zb. reflexivity.
   Qed.
 
   Lemma tail_edits_spec : forall lp ls rp rs out,
-      tail_edits T (lp ++ ls) (rp ++ rs) (zlen lp) (zlen rp) out = EOk (out ++ gap_list ls rs).
+      tail_edits T lx rx (lp ++ ls) (rp ++ rs) (zlen lp) (zlen rp) out = EOk (out ++ gap_list ls rs).
   Proof.
     intros lp ls rp rs out. unfold tail_edits.
+    assert (Ltf : forall x y, lit T es_tail_fuse_op x y = EOk (mkEdit Replace x y)) by reflexivity.
+    assert (Ltd : forall x y, lit T es_tail_drop_op x y = EOk (mkEdit Drop x y)) by reflexivity.
+    assert (Ltc : forall x y, lit T es_tail_copy_op x y = EOk (mkEdit Copy x y)) by reflexivity.
     unfold es_tail_fuse_cond, es_tail_drop_cond, es_tail_copy_cond, es_tail_fuse_rpos,
       es_tail_fuse_x_lo, es_tail_fuse_x_hi, es_tail_fuse_y_lo, es_tail_fuse_y_hi,
       es_tail_drop_x_lo, es_tail_drop_x_hi, es_tail_copy_y_lo, es_tail_copy_y_hi.
     rewrite !zlen_app.
-    assert (HL : zslice (lp ++ ls) (zlen lp) (zlen lp + zlen ls) = Some ls).
-    { rewrite <- (app_nil_r ls) at 1. now apply zslice_mid. }
-    assert (HR : zslice (rp ++ rs) (zlen rp) (zlen rp + zlen rs) = Some rs).
-    { rewrite <- (app_nil_r rs) at 1. now apply zslice_mid. }
+    assert (HL : zslice_cap (lp ++ ls) lx (zlen lp) (zlen lp + zlen ls) = Some ls).
+    { rewrite <- (app_nil_r ls) at 1. now apply zslice_cap_mid. }
+    assert (HR : zslice_cap (rp ++ rs) rx (zlen rp) (zlen rp + zlen rs) = Some rs).
+    { rewrite <- (app_nil_r rs) at 1. now apply zslice_cap_mid. }
     destruct ls as [|a1 d1], rs as [|a2 d2];
       try pose proof (zlen_pos a1 d1); try pose proof (zlen_pos a2 d2);
       rewrite ?zlen_nil, ?Z.add_0_r in *.
     - zb. cbn [andb ebind]. zb. cbn [gap_list]. now rewrite app_nil_r.
-    - zb. cbn [andb ebind]. zb. rewrite HR. reflexivity.
-    - zb. cbn [andb]. rewrite HL. cbn [of_opt ebind]. zb. reflexivity.
-    - zb. cbn [andb]. rewrite HL, HR. cbn [of_opt ebind]. zb. reflexivity.
+    - zb. cbn [andb ebind]. zb. rewrite HR. cbn [of_opt ebind]. now rewrite Ltc.
+    - zb. cbn [andb]. rewrite HL. cbn [of_opt ebind]. rewrite Ltd. cbn [ebind]. zb. reflexivity.
+    - zb. cbn [andb]. rewrite HL, HR. cbn [of_opt ebind]. rewrite Ltf. cbn [ebind]. zb. reflexivity.
   Qed.
 
   (* ---- one iteration of the outer loop ------------------------------------------------- *)
 
-  Lemma zslice_mid' : forall {A} (p x s l : list A) lo hi,
-      l = p ++ x ++ s -> lo = zlen p -> hi = zlen p + zlen x -> zslice l lo hi = Some x.
-  Proof. intros; subst; now apply zslice_mid. Qed.
+  Lemma zslice_mid' : forall {A} (p x s l extra : list A) lo hi,
+      l = p ++ x ++ s -> lo = zlen p -> hi = zlen p + zlen x -> zslice_cap l extra lo hi = Some x.
+  Proof. intros; subst; now apply zslice_cap_mid. Qed.
 
   Lemma run_ext_spec1 : forall lp d1 a ls' rp d2 b rs' cp x cs,
       SubB cs ls' -> SubB cs rs' ->
@@ -302,7 +353,7 @@ Section EditProofs.
         SubB cs2 ls2 /\ SubB cs2 rs2 /\ HeadsDiffer cs2 ls2 rs2 /\
         (d1 = [] -> d2 = [] ->
          exists a b ls' rs', ls = a :: ls' /\ rs = b :: rs' /\ eqb a b = true) /\
-        iter_body T eqb (lp ++ ls) (rp ++ rs) (cp ++ x :: cs) (zlen lp) (zlen rp) (zlen cp) out
+        iter_body T eqb lx rx (lp ++ ls) (rp ++ rs) (cp ++ x :: cs) (zlen lp) (zlen rp) (zlen cp) out
         = EOk (zlen (lp ++ d1 ++ e1), zlen (rp ++ d2 ++ e2), zlen (cp ++ c1),
                out ++ gap_list d1 d2 ++ [mkEdit Emit e1 []]).
   Proof.
@@ -336,6 +387,8 @@ Section EditProofs.
                 | now rewrite zlen_app
                 | rewrite zlen_app, zlen_cons; unfold zlen; lia ]).
     cbn [of_opt ebind].
+    replace (lit T es_emit_op (a :: e1) []) with (EOk (mkEdit Emit (a :: e1) [])) by reflexivity.
+    cbn [ebind].
     exists d1, (a :: e1), ls2, d2, (b :: e2), rs2, (x :: c1), cs2.
     repeat split; try assumption.
     - discriminate.
@@ -428,7 +481,7 @@ Section EditProofs.
       OutInv lp rp (length cp) out -> (out <> [] -> HeadsDiffer cs ls rs) ->
       exists lp' ls' rp' rs' out',
         lp ++ ls = lp' ++ ls' /\ rp ++ rs = rp' ++ rs' /\
-        outer T eqb fuel (lp ++ ls) (rp ++ rs) (cp ++ cs) (zlen lp) (zlen rp) (zlen cp) out
+        outer T eqb lx rx fuel (lp ++ ls) (rp ++ rs) (cp ++ cs) (zlen lp) (zlen rp) (zlen cp) out
         = EOk (zlen lp', zlen rp', out') /\
         OutInv lp' rp' (length (cp ++ cs)) out'.
   Proof.
@@ -497,7 +550,7 @@ Section EditProofs.
 
     (* F is the script before the single-Emit elision *)
     Lemma of_lcs_spec :
-      exists F, edit_script_of_lcs T eqb lcs lhs rhs = EOk (elided F) /\
+      exists F, edit_script_of_lcs T eqb lx rx lcs lhs rhs = EOk (elided F) /\
                 Valid eqb lhs rhs F /\ kept F = length lcs /\
                 forallb nonempty_edit F = true /\ alternating F = true.
     Proof.
@@ -526,7 +579,7 @@ Section EditProofs.
     Proof. intros [|e [|e' F]]; cbn; auto. destruct (is_op Emit e); auto. Qed.
 
     Lemma of_lcs_main :
-      exists es, edit_script_of_lcs T eqb lcs lhs rhs = EOk es /\
+      exists es, edit_script_of_lcs T eqb lx rx lcs lhs rhs = EOk es /\
                  ValidScript eqb lhs rhs es /\
                  kept (expand lhs es) = length lcs /\
                  canonical es = true /\ alternating es = true /\
@@ -549,7 +602,7 @@ Section EditProofs.
     Hypothesis Hopt : forall t, SubB t lhs -> SubB t rhs -> (length t <= length lcs)%nat.
 
     Lemma all_emit : forall F : list edit,
-        forallb nonempty_edit F = true -> dropped T F = 0%nat -> copied T F = 0%nat ->
+        forallb nonempty_edit F = true -> dropped F = 0%nat -> copied F = 0%nat ->
         forallb (is_op Emit) F = true.
     Proof.
       induction F as [|e F IH]; intros Hn Hd Hc; [reflexivity|].
@@ -574,7 +627,7 @@ Section EditProofs.
     Qed.
 
     Lemma of_lcs_equal_inputs :
-      EqLists eqb lhs rhs -> edit_script_of_lcs T eqb lcs lhs rhs = EOk [].
+      EqLists eqb lhs rhs -> edit_script_of_lcs T eqb lx rx lcs lhs rhs = EOk [].
     Proof.
       intros Heq. destruct of_lcs_spec as (F & Hrun & Hv & Hk & Hn & Ha).
       rewrite Hrun. f_equal. apply all_emit_short; [|assumption].
